@@ -100,54 +100,63 @@ func oParse(p string) (items []oItem, ok bool) {
 // the first character of a non-empty name: a well-formed UTF-8 sequence, or one byte (U+FFFD) otherwise
 func oFirst(n string) (rune, int) { return utf8.DecodeRuneInString(n) }
 
-// oMatchItems: whole-name match by backtracking, memoised on (item index, name offset)
+// oMatchItems: whole-name match by backtracking. A star is the only choice point: the result of "items from star k
+// onwards against the name from offset pos" is memoised; the single-character items in between are consumed in a loop.
 func oMatchItems(items []oItem, name string) bool {
 	memo := map[[2]int]bool{}
-	var rec func(k, pos int) bool
-	rec = func(k, pos int) bool {
+	var from func(k, pos int) bool
+	from = func(k, pos int) bool {
+		for ; k < len(items) && items[k].kind != oStar; k++ {
+			if pos >= len(name) {
+				return false
+			}
+			switch it := &items[k]; it.kind {
+			case oAny:
+				_, w := oFirst(name[pos:])
+				pos += w
+			case oLit:
+				if name[pos] != it.b {
+					return false
+				}
+				pos++
+			default:
+				r, w := oFirst(name[pos:])
+				in := false
+				for _, rg := range it.ranges {
+					if rg.lo <= r && r <= rg.hi {
+						in = true
+					}
+				}
+				if in == it.neg {
+					return false
+				}
+				pos += w
+			}
+		}
+		if k == len(items) {
+			return pos == len(name)
+		}
+		// a star: any sequence of whole characters, '/' included
 		key := [2]int{k, pos}
 		if v, seen := memo[key]; seen {
 			return v
 		}
 		res := false
-		rest := name[pos:]
-		switch {
-		case k == len(items):
-			res = rest == ""
-		case items[k].kind == oStar:
-			// any sequence of whole characters, '/' included
-			for q := pos; ; {
-				if rec(k+1, q) {
-					res = true
-					break
-				}
-				if q >= len(name) {
-					break
-				}
-				_, w := oFirst(name[q:])
-				q += w
+		for q := pos; ; {
+			if from(k+1, q) {
+				res = true
+				break
 			}
-		case rest == "":
-			res = false
-		case items[k].kind == oAny:
-			_, w := oFirst(rest)
-			res = rec(k+1, pos+w)
-		case items[k].kind == oLit:
-			res = rest[0] == items[k].b && rec(k+1, pos+1)
-		default:
-			r, w := oFirst(rest)
-			in := false
-			for _, rg := range items[k].ranges {
-				if rg.lo <= r && r <= rg.hi {
-					in = true
-				}
+			if q >= len(name) {
+				break
 			}
-			res = in != items[k].neg && rec(k+1, pos+w)
+			_, w := oFirst(name[q:])
+			q += w
 		}
 		memo[key] = res
 		return res
 	}
-	return rec(0, 0)
+	return from(0, 0)
 }
 
 // oracle: (matches, malformed)
